@@ -10,7 +10,7 @@ func VH_C20_predecode() {
 	limit := vI64("limit")
 	vAssume(vAnd(limit >= 0, limit <= 1<<27))
 	sp.MaximumDecompressedBodySize = limit
-	s := &vhScenario{rootSig: vChoice("root.sig", 3)}
+	s := &vhScenario{rootSig: vChoice("root.sig", 3), issuerOptional: true}
 	s.root = vhResponseRoot(s, "samlp:Response")
 	if vFlag("has-assertion") {
 		a := vhAssertionEl("c0", vChoice("c0.sig", 3))
